@@ -18,7 +18,8 @@ the token `err`.
 * `licence <kid:key,…> <ids|none> <0|1>` – ids `s:<text>` or `o`
 * `drmsel <string>`, `hdrver <0|1 aesctr> <nkeys>`, `drmctx <version|-> <0|1 aesctr> <nkeys> <string>`,
   `initpsshs <0|1 encrypted> <version|-> <0|1 aesctr> <string> <kids> <pro>`
-* `initrewrite <tree> <psshs> <0|1 live>`, `parseboxes <container types> <hex>` –
+* `initrewrite <tree> <0|1 encrypted> <version|-> <0|1 aesctr> <string> <kids> <pro> <0|1 live>`,
+  `parseboxes <container types> <hex>` –
   tree = preorder tokens `L<type>:<payload>` / `N<type>:<nchildren>` joined by `,`
 -/
 namespace DashLive.Driver.Drm
@@ -235,7 +236,8 @@ def initpsshs : List String → Option String
     let _ ← parseHex s
     match parseSelArg s with
     | none => some "err"
-    | some sel => some (showHexList (InitRewrite.initPsshs enc v aes sel kids pro))
+    | some sel =>
+      some (showHexList ((InitRewrite.initPsshs enc v aes sel kids pro).map (·.bytes)))
   | _ => none
 
 open InitRewrite in
@@ -279,10 +281,21 @@ partial def showBox : Box → List String
 def parseTree (s : String) : Option (List InitRewrite.Box) :=
   if s == "-" then some [] else readBoxes (s.splitOn ",") []
 
+/-- `initrewrite <tree> <0|1 encrypted> <version|-> <0|1 aesctr> <selection> <kids> <pro> <0|1 live>` -/
 def initrewrite : List String → Option String
-  | [tree, psshs, live] => do
+  | [tree, enc, v, aes, s, kids, pro, live] => do
     let top ← parseTree tree
-    some (toHex (InitRewrite.initBytes top (← parseHexList psshs) (← parseBool live)))
+    let enc ← parseBool enc
+    let v ← parseOptNat v
+    let aes ← parseBool aes
+    let kids ← parseHexList kids
+    let pro ← parseHex pro
+    let live ← parseBool live
+    let _ ← parseHex s
+    match parseSelArg s with
+    | none => some "err"
+    | some sel =>
+      some (toHex (InitRewrite.initBytes top (InitRewrite.initPsshs enc v aes sel kids pro) live))
   | _ => none
 
 def parseboxes : List String → Option String
